@@ -43,14 +43,15 @@ class HPoint:
     context: bool = False
     fields: str = "holes"  # holes | nested | self | none (no field at all) | noinit (only an init=False field)
     inner_context: bool = True
+    outer_extra: str = ""  # "N": the outer class also opted in to the omit_none flag, which the nested class did not
 
     def label(self):
-        return f"[{self.base}/{'+'.join(self.hooks) or 'nohooks'}/{self.fields}{'/ctx' if self.context else ''}{'' if self.inner_context else '/inner-noctx'}]"
+        return f"[{self.base}/{'+'.join(self.hooks) or 'nohooks'}/{self.fields}{'/ctx' if self.context else ''}{'' if self.inner_context else '/inner-noctx'}{'/outer+' + self.outer_extra if self.outer_extra else ''}]"
 
 
 def class_source(p: HPoint):
     imp, mix, _ = BASES[p.base]
-    src = [g4.PRELUDE, "from typing_extensions import Self", "from mashumaro.config import ADD_SERIALIZATION_CONTEXT", imp]
+    src = [g4.PRELUDE, "from typing_extensions import Self", "from mashumaro.config import ADD_SERIALIZATION_CONTEXT, TO_DICT_ADD_OMIT_NONE_FLAG", imp]
     ctxarg = ", context=None" if p.context else ""
 
     def hooks(ind):
@@ -83,7 +84,8 @@ def class_source(p: HPoint):
         src += ["    a: int", "    n: Optional[Self] = None", "    l: List[Self] = field(default_factory=list)"]
     src += hooks("    ")
     if p.context:
-        src += ["    class Config(BaseConfig):", "        code_generation_options = [ADD_SERIALIZATION_CONTEXT]"]
+        extra = "TO_DICT_ADD_OMIT_NONE_FLAG, " if p.outer_extra == "N" else ""
+        src += ["    class Config(BaseConfig):", f"        code_generation_options = [{extra}ADD_SERIALIZATION_CONTEXT]"]
     if p.base == "plain":
         src += ["from mashumaro.codecs.basic import BasicDecoder, BasicEncoder", "ENC = BasicEncoder(C)", "DEC = BasicDecoder(C)"]
     return "\n".join(src) + "\n"
@@ -164,7 +166,7 @@ def c19_task(payload):
                 params = [a.arg for a in fn.args.kwonlyargs]
                 for passed in ([frozenset(), frozenset({"context"})] if "context" in params else [frozenset()]):
                     oid = f"{pid}.G{label}/{to_name}/passed={'context' if passed else 'none'}"
-                    pp = g2.PPoint((), g7.effective_opts([("fmt", d.get("dialect"))]), False, ("X",) if p.context else ())
+                    pp = g2.PPoint((), g7.effective_opts([("fmt", d.get("dialect"))]), False, ((("N",) if p.outer_extra == "N" else ()) + ("X",)) if p.context else ())
                     object.__setattr__(pp, "ser_hooks", tuple(h[:-4] for h in p.hooks if h.endswith("_ser")))
                     object.__setattr__(pp, "hook_context", p.context)
                     object.__setattr__(pp, "count_hooks", True)
@@ -420,6 +422,9 @@ def lattice(tier):
                         if tier == "quick" and base in ("orjson", "msgpack") and hs not in (hook_sets[0], hook_sets[1], hook_sets[2], ()):
                             continue
                         pts.append(HPoint(base, hs, ctx, fs, inner))
+                        if fs == "nested" and ctx and inner and hs in (hook_sets[0], hook_sets[1], ()):
+                            # the outer class enables an earlier flag the nested class does not: context still reaches the nested class
+                            pts.append(HPoint(base, hs, ctx, fs, inner, "N"))
     seen, out = set(), []
     for p in pts:
         if p.label() not in seen and valid(p):
